@@ -10,7 +10,7 @@ Alphabet == {C("a"), C("z"), C("A"), C("Z"), C("!"), C("."), C("/"), C("1"), C("
 \* a vocabulary of words whose validity depends on letter case (reserved Windows names, short-name suffixes),
 \* alone and in pairs, bare and in escaped form
 Frag == {S("con"), S("CON"), S("Con"), S("nul"), S("NUL"), S("com1"), S("COM1"), S("Com1"), S("lpt9"), S("LPT9"), S("aux"), S("AUX"),
-         S("v1.0.0"), S("a"), S("A"), S("a~1"), S("A~1")}
+         S("v1.0.0"), S("a"), S("A"), S("a~1"), S("A~1"), S("con.tar.gz"), S("LPT1.0.0-pre"), S("pkg~1.a.b"), S(".github")}
 Words == Frag \cup {f \o <<sep>> \o g : f \in Frag, g \in Frag, sep \in {cDot, cSlash, C("-")}}
 \* the escape character followed by every ASCII character (and one beyond): only a lower-case letter may follow it
 Bangs == {S("a!") \o <<c>> \o S("b") : c \in (1..127) \cup {233}} \cup {S("v1.0.0-x!") \o <<c>> : c \in (1..127) \cup {233}}
